@@ -7,6 +7,8 @@ for f in sorted(os.listdir(os.path.join(V, "checks"))):
     if not f.endswith(".py"):
         continue
     pid = f[:-3]
+    if pid not in open(os.path.join(V, "checks", "READY")).read().split():
+        continue
     spec = importlib.util.spec_from_file_location("c", os.path.join(V, "checks", f)); m = importlib.util.module_from_spec(spec)
     try:
         spec.loader.exec_module(m)
